@@ -135,17 +135,34 @@ def lake_build(prop):
         lock.close()
 
 
-def audit(prop, names):
-    """returns dict name -> list of axioms (or None if not found)"""
+def _audit_file(tag, modules, names):
+    """one Lean file importing `modules` and printing the axioms of `names`; returns (rc, output)"""
     d = os.path.join(LEAN, ".lake", "audit")
     os.makedirs(d, exist_ok=True)
-    f = os.path.join(d, "Audit{}.lean".format(prop))
+    f = os.path.join(d, "Audit{}.lean".format(tag))
     with open(f, "w") as fh:
-        for m in prop_modules(prop):
+        for m in modules:
             fh.write("import {}\n".format(m))
         for n in names:
             fh.write("#print axioms {}\n".format(n))
-    rc, out = sh(["lake", "env", "lean", f], cwd=LEAN, timeout=1200)
+    return sh(["lake", "env", "lean", f], cwd=LEAN, timeout=1200)
+
+
+def audit(prop, names):
+    """returns dict name -> list of axioms (or None if not found)"""
+    rc, out = _audit_file(prop, prop_modules(prop), names)
+    if "environment already contains" in out and len(prop_files(prop)) > 1:
+        # The modules of this property cannot be imported into ONE environment (they build on lemma
+        # files of different workers that declare the same name, e.g. the C16 bridges to C14 and to
+        # C15): audit every module on its own, each theorem in the module that states it.
+        rc, outs = 0, []
+        for i, path in enumerate(prop_files(prop)):
+            mod = os.path.relpath(path, LEAN)[:-5].replace(os.sep, ".")
+            mine = set(theorem_names_in(path))
+            rc_i, out_i = _audit_file("{}_{}".format(prop, i), [mod], [n for n in names if n in mine])
+            rc = rc or rc_i
+            outs.append(out_i)
+        out = "\n".join(outs)
     res = {}
     flat = re.sub(r"\s+", " ", out)
     for n in names:
